@@ -10,6 +10,7 @@ import (
 	"time"
 
 	tmsync "github.com/tendermint/tendermint/libs/sync"
+	"github.com/tendermint/tendermint/libs/verifhook"
 )
 
 const (
@@ -124,6 +125,7 @@ func WriteFileAtomic(filename string, data []byte, perm os.FileMode) (err error)
 	// Close the file before renaming it, otherwise it will cause "The process
 	// cannot access the file because it is being used by another process." on windows.
 	f.Close()
+	verifhook.Point("tempfile.written", filename)
 
 	return os.Rename(f.Name(), filename)
 }
